@@ -354,6 +354,9 @@ func (t *Transaction) Insert(op *ovsdb.Operation) (ovsdb.OperationResult, *updat
 	if err != nil {
 		return ovsdb.ResultFromError(err), nil
 	}
+	// a row inserted again under the uuid of a row this transaction deleted
+	// is there for the operations that follow
+	delete(t.DeletedRows, deletedKey(op.Table, op.UUID))
 
 	result := ovsdb.OperationResult{
 		UUID: ovsdb.UUID{GoUUID: op.UUID},
